@@ -220,7 +220,7 @@ func VerifC17_q_shouldCleanupIffDead() {
 	}
 }
 
-// BOUND: three containers with arbitrary runtime answers; directory contents: one state file per container in each of two gc dirs, one ip file per container in one ip dir, plus a sub-directory, three non-IP files (one sorting before, one between, one after the reservations) and an empty ip file (no container id yet) sorted right after the first container's; one GC round of cleanupGCDirs and cleanupIP; both runtimes
+// BOUND: three containers with arbitrary runtime answers; directory contents: one state file per container in each of two gc dirs, one ip file per container in one ip dir, plus a sub-directory, three non-IP files (one sorting before, one between, one after the reservations) and an empty ip file (no container id yet) sorted right after the first container's; configured directories that do not exist before and after the real ones; one GC round of cleanupGCDirs and cleanupIP; both runtimes
 func VerifC17_q_collectOnlyDead() {
 	containerd := nondetBool()
 	ids := []string{"c1", "c2", "c3"}
@@ -251,7 +251,9 @@ func VerifC17_q_collectOnlyDead() {
 	// a reservation host-local is just writing (created, content not yet written): it sorts right after c1's file
 	ioutil.WriteFile(filepath.Join(ipDir, "172.16.0.20"), nil, 0o644)
 	var cleaned []string
-	gc, stop := vNewGC(containerd, []string{ipDir, filepath.Join(root, "missing")}, gcDirs, &cleaned)
+	// configured directories that were never created (another network plugin's) come first in both lists
+	gc, stop := vNewGC(containerd, []string{filepath.Join(root, "missing-ips"), ipDir, filepath.Join(root, "missing")},
+		append([]string{filepath.Join(root, "missing-state")}, gcDirs...), &cleaned)
 	defer stop()
 	_ = gc.cleanupGCDirs()
 	_ = gc.cleanupIP()
